@@ -28,6 +28,9 @@ ARG_POOL = [a for a in ARG_POOL if a is None or (a.count("(") == a.count(")") an
 
 
 def raw(g, level):
+    if g.chance(0.01):
+        # the wrapper attribute itself, without an argument list / as a name-value attribute
+        return Instr("foreign", "foreign", text=g.pick(["o2o", 'o2o = "x"', "o2o()", "o2o[]", "o2o{}", "o2o(,)"]))
     names = (ALL_TRAIT_NAMES + TYPE_LEVEL) if level == "type" else MEMBER_LEVEL
     if g.chance(0.25):
         names = ALL_TRAIT_NAMES + TYPE_LEVEL + MEMBER_LEVEL
